@@ -182,6 +182,23 @@ func runC02(r *ev.Run) {
 							break
 						}
 					}
+					// HNSW outside its exact regime: the graph walk is deterministic (no randomness, no map iteration), so for the
+					// L2 metrics — where the stored vector IS the caller's vector, bit for bit — the node-id search and the
+					// stored-vector search are the same computation and return the same ids. (Cosine re-normalises an already
+					// normalised vector, which may move a last bit and with it a tie: not compared there.)
+					if kind == "hnsw" && metric != comet.Cosine && !s.exhaustive(o) {
+						if len(a.ids) != len(b.ids) {
+							rep(kind+".node.differs", fmt.Sprintf("WithNode(%d) returned %d results, WithQuery(the bit-identical stored vector) %d (same ef, same graph)", id, len(a.ids), len(b.ids)))
+						} else {
+							for nid := range a.scoreOf {
+								if _, ok := b.scoreOf[nid]; !ok {
+									rep(kind+".node.differs", fmt.Sprintf("WithNode(%d) returns id %d, WithQuery(the bit-identical stored vector) does not (same ef, same graph)", id, nid))
+									break
+								}
+							}
+						}
+						r.Count("probes:node-id-approximate-regime-same-walk", 1)
+					}
 					r.Count("probes:node-id", 1)
 				}
 			}
